@@ -150,7 +150,7 @@ for _t, _c in (('d3', ''), ('nr', '  n = r;'), ('dr', '  d = r;'), ('nd', '  d =
     if _t == 'dr':
         _v['selftest'] = [('__gmpz_tdiv_r', r'if \(dp == rp\)', 'if (0)')]
     if _t == 'nr':
-        _v['tier'] = 'quick'; _v['selftest'] = [('__gmpz_tdiv_r', r'if \(np == rp\)', 'if (0)')]
+        _v['tier'] = 'quick'; _v['selftest'] = [('__gmpz_tdiv_r', r'ns >= 0 \? dl : -dl', 'ns > 0 ? -dl : dl')]      # dropping the np == rp copy is benign: mpn_tdiv_qr permits np == rp
     UNITS.append(_v)
 for _u in UNITS:
     if _u['name'] == 'mpz_tdiv_qr_nr':
